@@ -28,7 +28,7 @@ def run(pid, tier, args):
         else:
             gs = []
             i = 0
-            while len(gs) < (16 if quick else 40):
+            while len(gs) < (16 if quick else 300):
                 g = GG.make_grammar(rng, "g%d" % i, extra_kinds=[[], ["token"], ["int8", "int8s"], ["tokens", "token"], ["uint8s", "capt", "capts"], ["pstring", "textu", "pcapts"]][i % 6], ks=(1, -1) if (quick or i % 4) else (0, 1, 2, -1), trailing=(i % 5 == 0))
                 i += 1
                 gs.append(g)
@@ -57,7 +57,7 @@ def run(pid, tier, args):
                     g0 = dict(g0, id="x" + g0["id"], inputs=[], ks=[1, -1])
                     gs.append(g0)
             extra = []
-            maxlen = 3 if quick else 4
+            maxlen = 3   # (all byte strings of length 4 over 13 symbols x the thorough family does not finish: more grammars instead)
         gp = os.path.join(wd, "grammars.json")
         json.dump(gs, open(gp, "w"))
         cp = os.path.join(wd, "cases.json")
